@@ -412,4 +412,27 @@ theorem sound (Sg : List Summary) (Φ : List Fn) (hT : TableOK Sg Φ) {s : Stmt}
         exact ⟨p, mem_uni.2 (Or.inr hp1), hp2⟩
     · exact hr.r
 
+/-- soundness of the analysis for a function of the table (restated in Properties/C13.lean) -/
+theorem analyse_sound_aux (Sg : List Summary) (Φ : List Fn) (hT : tableOK Sg Sg Φ = true)
+    (f : Nat) (fn : Fn) (allowed : List Nat) (hf : Φ[f]? = some fn)
+    (hm : mutsWithin Sg f allowed = true) : Safe Φ fn allowed := by
+  intro P n0 st' hP hex s hs hlt
+  have hTab := tableOK_sound hT
+  obtain ⟨σ, hσ, hfn⟩ := hTab f fn hf
+  simp only [fnOK, Bool.and_eq_true] at hfn
+  have hb0 : Bnd n0 ⟨entry fn.nparams P, n0, [], []⟩ := by
+    refine ⟨Nat.le_refl _, ?_, ?_⟩
+    · intro x t ht
+      simp only [entry] at ht
+      by_cases hx : x < fn.nparams
+      · simp only [hx, if_true] at ht; exact hP x t ht
+      · simp [hx] at ht
+    · intro t ht; simp at ht
+  obtain ⟨_, hr⟩ := sound Sg Φ hTab hex (entry fn.nparams P) n0 (entryA fn.nparams) hb0 (entry_resp _ _ _) hfn.1.1
+  obtain ⟨p, hp1, hp2⟩ := hr.w s hs hlt
+  have hp3 : p ∈ σ.muts := sub_sound hfn.1.2 p hp1
+  unfold mutsWithin at hm
+  rw [hσ] at hm
+  exact ⟨p, sub_sound hm p hp3, hp2⟩
+
 end LinOp.C13
